@@ -22,6 +22,15 @@ C['C08'] = ("model_checking",
 C['C09'] = ("model_checking",
  "EntryLine.tla: the line grammar as a decision table (9 tags x up to 3-4 fields x 11 field shapes): TLC checks the transcription of the parser against MustReject/MustAccept and totality (and exhibits the two historical defects when their switches are off); every table case is concretised several times and loaded by the real parser, plus one-character edits of valid lines and every escape form over its full value range (\\x 256, \\u 65536, \\U all values to 0x110000 (stride 7 in quick) and edges up to 0xFFFFFFFF); TLC (TraceEntryLine/TraceCodec) judges each load.",
  "The classifier of concrete fields (harness) is the abstraction function. Lenient: numeric spellings int() accepts, non-padded timestamps, surrogate escapes, texts containing armor/dash-escaped lines (C04) or exotic line separators.")
+U = "TraceUpdate.tla judges every recorded update history of the real loader/CLI with UpdateRef's operators: "
+C['C03'] = ("model_checking", U + "ExactCover (each responsible file covered exactly once with true size and digests for exactly the requested hash set, no dangling entry, chain references true) and Glep74!MatchesStrict on the post-state, plus a fresh verification by a new loader. Histories start from every prior Manifest state in the quantifier (stale, duplicates with equal/sub/superset hash sets, parent+child entries, unregistered valid/invalid sub-Manifests, two Manifests per directory incl. same-directory reference, all compression formats), whole-tree and sub-directory updates, all three profiles, library and CLI.",
+ "Conditional on completion (failed updates are C18/C10's business). Known finding F14 (identical duplicates) is recognised by signature.")
+C['C10'] = ("model_checking", U + "nothing changes on disk (bytes, mtime_ns) before save_manifests nor by lookups/verification; no non-Manifest file is ever created/modified/deleted; DIST set, IGNORE set, TIMESTAMP (unless refreshed), tags of surviving file entries and all entries outside the updated directory (MANIFEST chain excepted) are preserved.",
+ "Writes are observed as raw snapshots of the whole tree before/after each operation (no hook). CLI update of the whole tree refreshes an existing TIMESTAMP by design.")
+C['C12'] = ("model_checking", U + "a second identical update on the unchanged tree changes no byte and no mtime; groups of runs on copies of one tree with shuffled directory enumeration (os.scandir interposed) and permuted old entries (forced rewrite) must write byte-identical Manifests when sorting is on and there is at most one Manifest per directory.",
+ "Canon is judged on Manifests written in both runs; with permuted old entries every Manifest is force-rewritten (an unrewritten Manifest legitimately keeps its order).")
+C['C13'] = ("model_checking", U + "the watermark rule on every Manifest (re)written by a save (compressed iff uncompressed size >= watermark, already compressed ones keep their format, new ones use the requested format, top-level Manifest never compressed, no second file for one logical Manifest) with watermarks at every Manifest size -1/0/+1, and transparency groups: the same tree under four assignments of plain/gz/bz2/lzma/xz to its sub-Manifests must give identical verification and lookup observations.",
+ "old-ebuild package Manifests (EBUILD entries) are exempt from the iff (profile rule, C19).")
 man = {
  "version": 1,
  "setup_cmd": "cd /verif && ./tools/setup.sh",
